@@ -166,7 +166,7 @@ func (f *frame) callFunc(fn *ssa.Function, args []Val, bindings []Val, c *ssa.Ca
 		return x.vc.zeroVal(fn.Signature.Results())
 	}
 	if ct := x.prog.Contracts[fn]; ct != nil && !ct.Inline {
-		return f.callContract(ct, fn.Signature, args, pos, funcKey(fn))
+		return f.callContract(ct, fn.Signature, args, pos, funcKey(fn), bindings...)
 	}
 	if ct := x.prog.Externs[name]; ct != nil {
 		return f.callContract(ct, fn.Signature, args, pos, name)
@@ -185,6 +185,10 @@ func (f *frame) callFunc(fn *ssa.Function, args []Val, bindings []Val, c *ssa.Ca
 		panic(unsupported(fmt.Sprintf("call to %s at %s: needs a contract (has loops or is too deep to inline)", name, pos)))
 	}
 	return f.unknownCall(name, args, fn.Signature.Results(), pos)
+}
+
+func (prog *Program) isRepoPkg(p *ssa.Package) bool {
+	return p != nil && strings.HasPrefix(p.Pkg.Path(), "github.com/containerd/nri")
 }
 
 func (prog *Program) isRepoFunc(fn *ssa.Function) bool {
@@ -265,9 +269,34 @@ func (f *frame) invoke(c *ssa.CallCommon, recv Val, args []Val, pos string) Val 
 	return f.unknownCall(cls, append([]Val{recv}, args...), m.Type().(*types.Signature).Results(), pos)
 }
 
+// callSiteAsserts checks the caller's `at call X#n assert e` clauses (the call's
+// arguments are available as arg0, arg1, ...).
+func (f *frame) callSiteAsserts(key string, ord int, args []Val, pos string) {
+	x := f.x
+	if !f.top || x.top == nil {
+		return
+	}
+	for i := range x.top.Asserts {
+		ca := &x.top.Asserts[i]
+		if ca.Callee == key && (ca.Ordinal == 0 || ca.Ordinal == ord) {
+			cenv := x.baseEnv(f.st)
+			for j, a := range args {
+				cenv.vars[fmt.Sprintf("arg%d", j)] = a
+			}
+			cenv.lookup = func(name string) (Val, bool) { return f.lookupName(name, f.curBlock, f.st) }
+			t := x.evalClause(cenv, &ca.Clause)
+			f.assert(fmt.Sprintf("callsite.%s#%d.%s", key, ord, clauseName(&ca.Clause, i)), "call-site assertion: "+ca.Clause.Text, t, &ca.Clause, pos)
+		}
+	}
+}
+
 // unknownCall: arbitrary results, ghost call-log entry, no effect on the heap.
 func (f *frame) unknownCall(cls string, args []Val, results *types.Tuple, pos string) Val {
 	x := f.x
+	if f.top {
+		x.callOrd[cls]++
+		f.callSiteAsserts(cls, x.callOrd[cls], args, pos)
+	}
 	x.abstracted = true
 	x.vc.Assume["call class "+cls+": result arbitrary, no effect on NRI state (ghost-logged)"] = true
 	res := x.vc.freshVal(results, "ret."+cls)
@@ -296,7 +325,7 @@ func (x *Exec) fixPtrs(v Val) Val {
 
 // ---- contract calls ----
 
-func (f *frame) callContract(ct *Contract, sig *types.Signature, args []Val, pos string, key string) Val {
+func (f *frame) callContract(ct *Contract, sig *types.Signature, args []Val, pos string, key string, free ...Val) Val {
 	x := f.x
 	ord := 0
 	if f.top {
@@ -310,18 +339,8 @@ func (f *frame) callContract(ct *Contract, sig *types.Signature, args []Val, pos
 		}
 	}
 	env := x.contractEnv(ct, sig, args, f.st, f.st)
-	// call-site assertions of the caller's contract (at call X#n assert e)
-	if f.top && x.top != nil {
-		for i := range x.top.Asserts {
-			ca := &x.top.Asserts[i]
-			if ca.Callee == key && (ca.Ordinal == 0 || ca.Ordinal == ord) {
-				cenv := x.baseEnv(f.st)
-				cenv.lookup = func(name string) (Val, bool) { return f.lookupName(name, f.curBlock, f.st) }
-				t := x.evalClause(cenv, &ca.Clause)
-				f.assert(fmt.Sprintf("callsite.%s#%d.%s", key, ord, clauseName(&ca.Clause, i)), "call-site assertion: "+ca.Clause.Text, t, &ca.Clause, pos)
-			}
-		}
-	}
+	x.bindFree(env, ct, free, f.st)
+	f.callSiteAsserts(key, ord, args, pos)
 	for i := range ct.Requires {
 		c := ct.Requires[i]
 		t := x.evalClause(env, &c)
@@ -347,6 +366,7 @@ func (f *frame) callContract(ct *Contract, sig *types.Signature, args []Val, pos
 		x.vc.Assume["assumed contract of external call "+key] = true
 	}
 	post := x.contractEnv(ct, sig, args, f.st, pre)
+	x.bindFree(post, ct, free, f.st)
 	x.bindResult(post, sig, res)
 	for i, r := range ct.Results {
 		if r.Name != "" && i < len(res.Fs) {
@@ -380,6 +400,22 @@ func (x *Exec) bindResult(env *Env, sig *types.Signature, res Val) {
 			if _, clash := env.vars[n]; !clash {
 				env.vars[n] = res.Fs[i]
 			}
+		}
+	}
+}
+
+// bindFree binds the captured variables of a closure under contract (by name) to their
+// current values; the bindings are pointers to the captured variables.
+func (x *Exec) bindFree(env *Env, ct *Contract, free []Val, st *State) {
+	if ct.Fn == nil {
+		return
+	}
+	for j, fv := range ct.Fn.FreeVars {
+		if j >= len(free) {
+			break
+		}
+		if p, ok := under(fv.Type()).(*types.Pointer); ok {
+			env.vars[fv.Name()] = x.heap.load(st, x.fixPtr(free[j]), p.Elem())
 		}
 	}
 }
@@ -526,6 +562,26 @@ func (x *Exec) resolveModifies(env *Env, c *Clause) (out []modTarget) {
 				mt.sorts = append(mt.sorts, s)
 			}
 			return []modTarget{mt}
+		case "chanstate":
+			ch := env.Eval(n.Args[0])
+			mt := modTarget{target: ch.S, text: c.Text}
+			for _, kv := range [][2]string{{chanKey("closed", ch.T), "(Array Int Bool)"}, {chanKey("len", ch.T), "(Array Int Int)"}, {chanKey("cap", ch.T), "(Array Int Int)"}} {
+				h.declare(kv[0], kv[1])
+				mt.keys = append(mt.keys, kv[0])
+				mt.sorts = append(mt.sorts, kv[1])
+			}
+			return []modTarget{mt}
+		case "allchans":
+			// allchans("chan T"): the state of every channel of that type
+			ct := x.resolveType(strings.TrimPrefix(env.strArg(n, 0), "chan "), env.pkg)
+			cht := types.NewChan(types.SendRecv, ct)
+			mt := modTarget{text: c.Text}
+			for _, kv := range [][2]string{{chanKey("closed", cht), "(Array Int Bool)"}, {chanKey("len", cht), "(Array Int Int)"}, {chanKey("cap", cht), "(Array Int Int)"}} {
+				h.declare(kv[0], kv[1])
+				mt.keys = append(mt.keys, kv[0])
+				mt.sorts = append(mt.sorts, kv[1])
+			}
+			return []modTarget{mt}
 		case "alllocks":
 			// alllocks("T:path"): the lock embedded at that path in every object of type T
 			key := env.strArg(n, 0)
@@ -628,7 +684,7 @@ func (f *frame) builtin(b *ssa.Builtin, c *ssa.CallCommon, args []Val, site ssa.
 		case *types.Basic:
 			return Val{T: intT, S: app("str.len", v.S)}
 		case *types.Chan:
-			return Val{T: intT, S: x.chanLen(f.st, v.S)}
+			return Val{T: intT, S: x.chanLen(f.st, v)}
 		}
 	case "cap":
 		v := args[0]
